@@ -697,7 +697,8 @@ fn miri_body(thorough: bool, part: &str) {
     // (m3c) taiko under Relax (colour peaks all zero) on maps that open with swells / a drum roll before the first hit: the
     // merged peak list is built section by section, all-zero sections included
     if part == "decode" {
-        for (mode, first) in [(1u8, Kind::Spinner(900)), (0, Kind::Spinner(900)), (1, Kind::Slider5)] {
+        // (quick tier: the native taiko map with leading swells; thorough: also the osu! convert and leading drum rolls)
+        for (mode, first) in [(1u8, Kind::Spinner(900)), (0, Kind::Spinner(900)), (1, Kind::Slider5)].into_iter().take(if thorough { 3 } else { 1 }) {
             println!("MIRI-STEP taiko relax mode={mode} first={first:?}");
             let o = |k, gap| Obj { kind: k, gap, pos: PosK::Far, sound: 0, col: 0 };
             // four long objects 1000 ms apart (the first two only seed the history, the next two are the first difficulty
